@@ -805,7 +805,7 @@ func ecReplay(e *Env) error {
 
 func runC15(e *Env) error {
 	r := e.Rep
-	r.Rule = "operation histories on a fresh twig.Engine with 2–4 in-memory loaders (timestamp-aware and not) and 3 names; every source is a " +
+	r.Rule = "(0) 40-step histories of file writes / removals / renders over FileSystemLoader with three search paths, two registered loaders and a ChainLoader: a long-lived engine (cache off; cache + auto-reload) renders what an engine created now renders; operation histories on a fresh twig.Engine with 2–4 in-memory loaders (timestamp-aware and not) and 3 names; every source is a " +
 		"version tag; (a) pinned regression histories, (b) every word of length ≤ N over a 10-letter alphabet acting on one name, from 3 loader " +
 		"setups, (c) random histories of ≤ 60 ops over 11 operation kinds; after every op: served tag / error class, Load and GetModifiedTime " +
 		"counters per loader×name, cache keys and flags are compared with EngineCache.step, served with Spec.expected, and the six sentences are " +
@@ -813,6 +813,8 @@ func runC15(e *Env) error {
 	if e.Replay != "" {
 		return ecReplay(e)
 	}
+	// (0) the library's own loaders over real files
+	c15OwnLoaders(e)
 	// (a) regression corpus
 	for _, c := range ecCorpus() {
 		ok, err := ecCheck(e, c.ops, c.name, c.want)
